@@ -189,6 +189,14 @@ class Env:
                 params = tuple(params)
             c = Ctx(body, params=params, self_adt=pctx.self_adt, bindings=pctx.bindings,
                     stack=pctx.stack + (body.def_,), site=((body.def_, "closure"),))
+            if clo is not None:
+                from guards import bool_facts
+                entry = []
+                for bi, t, c2 in parent.calls():
+                    mk = PURE.get(callee_model_key(c2)) if not c2.indirect else None
+                    if mk == "bool::then" and len(t["args"]) == 2 and unref(self.ev.operand(pctx, t["args"][1])) == clo:
+                        entry.extend(bool_facts(self.ev.operand(pctx, t["args"][0]), True))
+                c.entry_facts = tuple(entry)
         else:
             c = Ctx(body, params=None, self_adt=self_adt, bindings=bindings, stack=(body.def_,))
         self._ctx[key] = c
@@ -290,18 +298,20 @@ class Env:
         self._views = v
         return v
 
-    def flat_events(self, body, self_adt=None, world=None, max_depth=6):
-        """events of body with crate-local callees inlined; each event carries top_bb (block of `body`) and chain"""
+    def flat_events(self, body, self_adt=None, world=None, max_depth=6, own_closures=False):
+        """events of body with crate-local callees (and the closures they create) inlined; each event carries top_bb
+        (block of `body`) and chain. own_closures: also inline the closures created by `body` itself (rules that analyse
+        those closures as bodies of their own leave it off)"""
         ctx = self.ctx(body, self_adt, world)
-        key = ("flat", id(ctx), max_depth)
+        key = ("flat", id(ctx), max_depth, own_closures)
         if key in self._events:
             return self._events[key]
         out = []
-        self._flat(ctx, None, (), out, 0, max_depth)
+        self._flat(ctx, None, (), out, 0, max_depth, own_closures)
         self._events[key] = out
         return out
 
-    def _flat(self, ctx, top_bb, chain, out, depth, max_depth):
+    def _flat(self, ctx, top_bb, chain, out, depth, max_depth, own_closures=False):
         body = ctx.body
         # arithmetic statements
         for bi, blk in enumerate(body.blocks):
@@ -357,6 +367,59 @@ class Env:
                 if nctx is not None:
                     e.info["inlined"] = True
                     self._flat(nctx, tb, chain + ((body, bi, ctx),), out, depth + 1, max_depth)
+        # closures created by an inlined callee run as part of it (those of the analysed body itself are analysed as
+        # bodies of their own by the rules)
+        if (depth > 0 or own_closures) and depth < max_depth:
+            for cl in self.F.closures_of.get(body.def_, []):
+                cctx, cbb = self.closure_ctx(ctx, cl)
+                if cctx is not None:
+                    tb = cbb if top_bb is None else top_bb
+                    self._flat(cctx, tb, chain + ((body, cbb, ctx),), out, depth + 1, max_depth)
+
+    def closure_ctx(self, pctx, cl):
+        """(context, creation block) of closure body cl created in the activation pctx of its parent: the closure
+        environment is bound to the creation site; its argument and entry facts come from the modelled combinator that
+        runs it (Option::map / and_then / map_or: payload of the receiver; bool::then: condition true)"""
+        key = ("closure_ctx", cl.def_)
+        if key in pctx.memo:
+            return pctx.memo[key]
+        from guards import bool_facts
+        parent = pctx.body
+        clo, cbb = None, None
+        for bi, bb in enumerate(parent.blocks):
+            if bb["cleanup"]:
+                continue
+            for s in bb["stmts"]:
+                if s["k"] == "assign" and s["rv"]["k"] == "aggregate" and s["rv"].get("ak") == "closure" \
+                        and s["rv"]["def"] == cl.def_:
+                    clo = self.ev.rvalue(pctx, s["rv"])
+                    cbb = bi
+        res = (None, None)
+        if clo is not None and cl.def_ not in pctx.stack and pctx.depth < self.ev.MAX_DEPTH:
+            params = [clo]
+            entry = []
+            for bi, t, c2 in parent.calls():
+                mk = PURE.get(callee_model_key(c2)) if not c2.indirect else None
+                if mk in ("Option::map", "Option::and_then", "Option::map_or") and len(t["args"]) in (2, 3):
+                    if unref(self.ev.operand(pctx, t["args"][-1])) == clo:
+                        recv = self.ev.operand(pctx, t["args"][0])
+                        pay = self.ev.payload(pctx, recv)
+                        params.append(pay)
+                        entry.append(("is_some", unref(recv), True))
+                        # what held wherever this `Some(payload)` was built
+                        entry.extend(self.ev.payload_facts.get(pay, []))
+                        entry.extend(self.ev.payload_flags.get(pay, []))
+                elif mk == "bool::then" and len(t["args"]) == 2:
+                    if unref(self.ev.operand(pctx, t["args"][1])) == clo:
+                        entry.extend(bool_facts(self.ev.operand(pctx, t["args"][0]), True))
+            while len(params) < cl.arg_count:
+                params.append(("clarg", cl.def_, len(params) + 1))  # an argument supplied by whoever runs the closure
+            cctx = Ctx(cl, params=tuple(params), self_adt=pctx.self_adt, bindings=pctx.bindings, depth=pctx.depth + 1,
+                       site=pctx.site + ((cl.def_, "closure"),), stack=pctx.stack + (cl.def_,), parent=(pctx, cbb))
+            cctx.entry_facts = tuple(entry)
+            res = (cctx, cbb)
+        pctx.memo[key] = res
+        return res
 
     def event_facts(self, e):
         """guard facts that hold when a flat event executes: those of its own block and of every call site on its chain"""
